@@ -28,6 +28,7 @@ type SiteAssert struct {
 	Text  string
 	Expr  ast.Expr
 	Hits  int
+	Mark  bool // mark[name]: not an obligation; Label is the mark's name
 }
 
 type Contract struct {
@@ -98,7 +99,7 @@ type Specs struct {
 	trustedList  []string
 }
 
-var clauseKeywords = []string{"assert", "requires", "ensures", "ghost-ensures", "assume-entry", "modifies", "loop", "trusted", "pure-effects", "inline-ok", "instantiate"}
+var clauseKeywords = []string{"assert", "mark", "requires", "ensures", "ghost-ensures", "assume-entry", "modifies", "loop", "trusted", "pure-effects", "inline-ok", "instantiate"}
 
 func loadSpecs(repo string) (*Specs, error) {
 	sp := &Specs{constGlobals: map[string]bool{}, contracts: map[string]*Contract{}, defines: map[string]*Define{}, pures: map[string]*PureFunc{}, ghosts: map[string]*GhostVar{},
@@ -332,8 +333,9 @@ func (sp *Specs) parseFile(repo, fn string) error {
 					cur.Props[q] = true
 				}
 			}
-		case "assert":
+		case "assert", "mark":
 			// assert[label] at "source text": expr
+			// mark[name] at "source text": expr   (no obligation: records that the site was reached with expr true; read by marked(name))
 			if cur == nil {
 				return errf("assert outside a contract")
 			}
@@ -360,7 +362,7 @@ func (sp *Specs) parseFile(repo, fn string) error {
 			if end < 0 {
 				return errf("site must be followed by a colon")
 			}
-			sa := &SiteAssert{Label: label, Site: strings.ReplaceAll(r2[1:1+end], "\\\"", "\""), Text: strings.TrimSpace(r2[end+3:])}
+			sa := &SiteAssert{Label: label, Site: strings.ReplaceAll(r2[1:1+end], "\\\"", "\""), Text: strings.TrimSpace(r2[end+3:]), Mark: word == "mark"}
 			cur.Sites = append(cur.Sites, sa)
 			lastClause = nil
 			lastSite = sa
